@@ -35,7 +35,7 @@ def data_env():
 # ------------------------------------------------------------------------------------------------
 LI_INV = ["SplitInverse", "ErrorKind", "ValueOK", "NothingDropped", "RoundTrip", "LocaleAgrees", "EmitCase"]
 LOC_INV = ["SplitInverse", "ZoneDefined", "ValueOK", "RoundTrip", "NothingDropped", "IdIsPrefixParse", "EmitCase"]
-SUB_INV = ["AsciiOnly", "CanonFix", "CaseBlind", "Disjoint", "RawRoundTrip", "EmitCase"]
+SUB_INV = ["AsciiOnly", "CanonFix", "CaseBlind", "Disjoint", "RawRoundTrip", "NeighbourRejected", "EmitCase"]
 OBJ_INV = ["TypeOK", "RoundTrip", "ExtRoundTrip", "ErrorsAndGettersArePure", "ReparseIsNoOp", "EmitHist"]
 MATCH_INV = ["Definition", "NoRangeIsEquality", "Symmetric", "Reflexive", "Monotone", "PrivateRule", "EmitCase"]
 CMP_INV = ["OrderTotal", "OrderTransitive", "TextInjective", "AbsentSortsFirst", "EmitCase"]
